@@ -63,7 +63,7 @@ def describe(case):
             "queries": [cond_text(q, case["sig"]) for q in case["queries"]], "weakly": case["weakly"]}
 
 
-def run_ops_property(prop, configs, modes, tier, seed, quick_count=220, thorough_count=2500, max_atoms=None, extra_cases=None,
+def run_ops_property(prop, configs, modes, tier, seed, quick_count=450, thorough_count=3000, max_atoms=None, extra_cases=None,
                      case_filter=None):
     rng = random.Random(seed * 7919 + sum(ord(ch) for ch in prop))
     count = quick_count if tier == "quick" else thorough_count
